@@ -3,8 +3,40 @@ import common as C
 from p_c03 import run_env, replay  # noqa: F401
 
 
+def through_the_client(ctx):
+    """An altered copy of a packet that has just been accepted is refused like any altered packet: the object the packet
+    carried reaches the application once.  (Through transport.ReadMsg and the receive loop, not only the parser.)"""
+    import p_session as S
+    scs = []
+    sid = 0
+    for what in ("flip-ct", "flip-keyid", "cut-block", "cut-tail"):
+        sid += 1
+        scs.append(S.mk(sid, "altered-copy-" + what, "replay",
+                        [{"a": "Probe", "tag": 90}, {"a": "Push", "what": "api_object"}, {"a": "Settle"},
+                         {"a": "ReplayAltered", "what": what}, {"a": "ReplayAltered", "what": what}, {"a": "Settle"}, {"a": "Probe", "tag": 91}, {"a": "Settle"}]))
+    by = S.run_children(ctx, scs, batch=2)
+    n = 0
+    for sc in scs:
+        evs = by.get(sc["id"], [])
+        n += len(evs)
+        if not any(e["e"] == "Connected" for e in evs):
+            raise C.Broken("replay scenario %s got no connection" % sc["name"])
+        ups = sum(1 for e in evs if e["e"] == "Update")
+        dead = [e for e in evs if e["e"] in ("Dead", "Timeout")]
+        if ups > 1:
+            ctx.disagreement("C04:altered-copy-accepted:" + sc["name"].split("-", 2)[2],
+                             "an altered copy of a just accepted packet was accepted: the object it carried reached the handler %d times" % ups,
+                             {"scenario": sc, "events": evs[:120]})
+        elif ups == 0:
+            raise C.Broken("replay scenario %s: the unaltered packet was not delivered" % sc["name"])
+        if dead:
+            ctx.disagreement("C04:altered-copy-kills:" + sc["name"].split("-", 2)[2], "the client died or stalled on an altered copy", {"scenario": sc, "events": evs[:120]})
+    return len(scs), n
+
+
 def run(ctx):
     mc, rep, ncases = run_env(ctx, "c04")
+    nsc, nev = through_the_client(ctx)
     C.write_evidence(ctx, "model_checking", {
         "states": mc.distinct, "transitions": mc.generated,
         "traces_validated_against_impl": rep["extra"]["mutated_packets"],
@@ -13,7 +45,8 @@ def run(ctx):
                 "refused unless a consistent re-sealing by the key holder, never a panic state; EnvelopeTerm: for 4 (7) body "
                 "lengths, 19 mutation classes with seeded positions (every bit in thorough) and every declared length in "
                 "{-2^31+1, -1, n-33..n+33, 2^31-1} re-sealed with the key; the expected verdict is the specification's "
-                "five-check Accept evaluated on the actual mutated bytes; DeserializeEncrypted run under recover",
+                "five-check Accept evaluated on the actual mutated bytes; DeserializeEncrypted run under recover; through the whole client: "
+                "an altered copy (bit flip in ciphertext / key id, cut by a block / inside a block) of a packet just accepted is not accepted",
         "samples": rep["samples"], "exhaustive": False, "mutation_cases": ncases,
         "disagreement_signatures": rep["sig_counts"],
     }, ["SHA-1 / AES trusted; a random bit flip is refused because the recomputed msg_key differs (decided by computation, not assumed)"])
